@@ -258,6 +258,7 @@ func runC01(c *Ctx) {
 		c.fail("read.count-before-eof", "instances", "-", "expected at least 2 Read loops in the data path, found "+itoa(n))
 	}
 	checkWriterIntakeClosedWorld(c, "writer.intake-closed-world")
+	checkGenericErrorDiscipline(c, "pkg/cafs")
 }
 
 // checkWriterHandoff: ownership of the buffer given to `go pFlush`.
@@ -501,8 +502,21 @@ func checkFlushOrder(c *Ctx, rule string) {
 				continue
 			}
 			okLit = true
+			// Written: the count of the copy of the source into this Put's own writer; a copy buffer, if any, must be
+			// local to the call (a buffer shared by the Fs is overwritten by concurrent Puts)
+			if wv := fieldOfCompositeLit(cl, "Written"); wv != nil {
+				d := describeExpr(pf, wv, 0)
+				okW := d == "call:io.Copy(recv.writer(),param#1)#0"
+				if !okW && strings.HasPrefix(d, "call:io.CopyBuffer(recv.writer(),param#1,") && strings.HasSuffix(d, ")#0") {
+					buf := strings.TrimSuffix(strings.TrimPrefix(d, "call:io.CopyBuffer(recv.writer(),param#1,"), ")#0")
+					okW = buf == "nil" || strings.HasPrefix(buf, "call:builtin.make(")
+				}
+				c.check(okW, rule, pf.ID+":PutRes.Written", p.Pos(wv.Pos()), "Written <- "+d,
+					"field Written is fed from `"+d+"`, expected the count of io.Copy (or io.CopyBuffer with a buffer local to the call) of the source into this Put's own writer: a copy buffer shared by the Fs lets concurrent Puts overwrite one another's bytes before they reach the leaves")
+			} else {
+				c.fail(rule, pf.ID+":PutRes.Written", p.Pos(cl.Pos()), "PutRes.Written is not set")
+			}
 			checkLitFields(c, rule, pf, cl, pf.ID+":PutRes", map[string]string{
-				"Written": "call:io.Copy(recv.writer(),param#1)#0",
 				"Key":     "recv.writer().Flush()#0",
 				"Keys":    "recv.writer().Flush()#1",
 			}, "the reported size/key would not describe what was stored")
@@ -772,6 +786,7 @@ func runC02(c *Ctx) {
 	checkReadCountConsumed(c, "chunking-independence.count-before-eof")
 	checkWriterIntakeClosedWorld(c, "chunking-independence.intake-closed-world")
 	checkFlushGuard(c, "tree-format.empty-tail-adds-no-leaf")
+	checkGenericErrorDiscipline(c, "pkg/cafs")
 }
 
 func isFoundAndNotOverwrite(f *FuncInfo, e ast.Expr) bool {
@@ -1290,6 +1305,7 @@ func runC03(c *Ctx) {
 	checkVerifyAlwaysHashes(c, "mismatch-is-error.always-hashes")
 	checkWriteToWorkerExclusive(c, "verify-coverage.writeto-error-exclusive")
 	checkEOFByIdentity(c, "errors-surface.eof-by-identity")
+	checkGenericErrorDiscipline(c, "pkg/cafs", "pkg/storage/localfs")
 }
 
 func fmtConds(conds []string) string {
